@@ -25,6 +25,9 @@ OPTSETS = {
     "collapse1": ["-O1", "-fcollapse-transition-ranges", "--collapsed-range-length", "1"],
     "collapse4-indirect-zerolen": ["-O1", "-fcollapse-transition-ranges", "-findirect-start-ptr", "-fzero-len-input-support"],
     "collapse9-u8-hookstate": ["-O1", "-fcollapse-transition-ranges", "--collapsed-range-length", "9", "-fstrings-as-u8", "-fhook-per-state"],
+    # representation options next to the optimiser: at -O3 yields sit on consuming transitions, so how feed is entered (zero-length chunks) matters
+    "O3-strict": ["-O3", "-fstrict-done-token-generation"],
+    "O3-strict-zerolen-indirect": ["-O3", "-fstrict-done-token-generation", "-fzero-len-input-support", "-findirect-start-ptr"],
 }
 
 
@@ -180,7 +183,7 @@ def main():
     ps = progs.corpus(big=True) + gen.generated_programs(300 if thorough else 40, common.seed())
     text = ("Frame lemma by read-set analysis of the real AST (proved for all programs): representation options are read only inside CodegenCtx. Per program: compiled DFAs identical across "
             f"{len(OPTSETS)} representation option sets (bounded-exact), and under each of them the emitted C is proved (csem+z3) to execute that machine on a representation-independent abstraction.")
-    rep, recs = T.run("C12", {"refine", "endfx", "consume"}, "translation_validation", text, optsets=OPTSETS, programs=ps, post=post,
+    rep, recs = T.run("C12", {"refine", "endfx", "consume", "chunk", "coherence"}, "translation_validation", text, optsets=OPTSETS, programs=ps, post=post,
                       fns=["CodegenCtx (all template branches on storage / hook / start-pointer mode)", "ParseCtx.* / DfaCompileCtx.* (frame)"])
     frame_lemma(rep)
     by_prog = {}
@@ -189,7 +192,14 @@ def main():
             if item[0] == "dfasig":
                 by_prog.setdefault(r["prog"], {})[r["opt"]] = (item[1], item[2])
     nsame = 0
+    # identity is required among option sets that differ in representation options only: grouped by the non-representation part
+    # (optimisation level, strict done tokens) of the option set
+    group_of = {name: tuple(x for x in fl if x.startswith("-O") or x == "-fstrict-done-token-generation") for name, fl in OPTSETS.items()}
+    split = {}
     for p, d in by_prog.items():
+        for opt, v in d.items():
+            split.setdefault((p, group_of.get(opt, ())), {})[opt] = v
+    for (p, grp), d in split.items():
         sigs = set(v[0] for v in d.values())
         if len(sigs) > 1:
             rep.bounded_violation(Finding("C12", f"C12/dfa-identity/{p}", f"dfa-identity|{p}", f"{p}: the compiled state machine differs between representation option sets {sorted(d)}: {d}",
